@@ -20,6 +20,7 @@ is checked by the driver, not by a theorem.
 `select_zero` / `zero_iter` are not claimed in multiset mode (the property does not ask for them).
 -/
 import Sds.Proofs.Glue2
+import Sds.Proofs.GenEqSpMisc
 
 namespace Sds.C15
 open Sds Outcome
@@ -262,5 +263,25 @@ example : (succSet [0, 0, 1, 2, 2] 2 = some (3, 2) ∧ predSet [0, 0, 1, 2, 2] 2
     bitsOfSet [0, 0, 1, 2, 2] 3 = [true, true, true] ∧ bitsOfSet [1, 1] 3 = [false, true, false]) := by decide
 example : ([1, 1, 4].getLast (by decide) + 1 = 5 ∧ sortedLe [1, 1, 4] = true ∧ sortedLe [1, 4, 1] = false) := by
   decide
+
+/-! **`SparseVector::try_from_iter` and `is_multiset` as translated from the source on this run**
+(`Generated/FnsSpMisc2.lean`, `FnsSpMisc.lean`): `try_from_iter` takes `size_hint`, removes the LAST item with `next_back`
+(universe = last + 1, or 0 for an empty iterator), builds a multiset builder, `try_set`s the remaining items in order and
+then `universe - 1`, and converts — equal to the model's `Sparse.ofValues … true vals` (multiset mode) that the
+theorems above start from, for every width the float rule can choose.  `is_multiset` walks the one-iterator with the
+previous position (initially `len`, which no item equals) and returns at the first repetition. -/
+theorem try_from_iter_as_translated_from_source (m : Mode) (fw : Nat) (vals : List Nat) (hfw1 : 1 ≤ fw) (hfw2 : fw ≤ 64)
+    (hu : GenEq.tfiUniv vals < U64)
+    (hh : vals.length + Sparse.getBuckets (GenEq.tfiUniv vals) (GenEq.spWidth fw (GenEq.tfiUniv vals) vals.length) + 63 < U64)
+    (hl : vals.length * GenEq.spWidth fw (GenEq.tfiUniv vals) vals.length + 63 < U64) :
+    Generated.gen_SparseVector_try_from_iter m fw vals =
+      Sparse.ofValues (GenEq.spWidth fw (GenEq.tfiUniv vals) vals.length) (GenEq.tfiUniv vals) true vals :=
+  GenEq.sp_try_from_iter_eq m fw vals hfw1 hfw2 hu hh hl
+
+theorem is_multiset_as_translated_from_source (m : Mode) (items : List (Nat × Nat)) (s : Sparse) :
+    Generated.gen_SparseVector_is_multiset m items s = ok (GenEq.isMultisetList s.len (items.map (·.2))) ∧
+    (∀ n (l : List Nat), GenEq.isMultisetList n l = true ↔
+        (l.head? = some n ∨ ∃ i, l[i]? = l[i + 1]? ∧ i + 1 < l.length)) :=
+  ⟨GenEq.sp_is_multiset_eq m items s, fun n l => GenEq.isMultisetList_iff n l⟩
 
 end Sds.C15
